@@ -177,6 +177,9 @@ inline std::string c08_check(const Manifold& m, const MeshGL64& g, const Args& a
   std::string d = canon_compare(g, g2, full);
   if (!d.empty()) return "reexport64_differs:" + d;
   if (!(g2.tolerance >= g.tolerance)) return "tolerance_shrank";
+  // the export must carry the object's tolerance, and the rebuilt object must not have a smaller one
+  if (g.tolerance != m.GetTolerance()) return "exported_tolerance_differs_from_GetTolerance";
+  if (!(m2.GetTolerance() >= m.GetTolerance())) return "reimported_tolerance_smaller";
   if (m2.NumVert() != m.NumVert() || m2.NumTri() != m.NumTri()) return "reimport64_counts";
   // ---- merge vectors
   d = merge_vectors_suffice(m, g);
